@@ -488,6 +488,9 @@ MUTANTS = [
      "old": "                log.warning(\"Timed out trying to get API versions from %r\", self)\n                api_version_failures += 1",
      "new": "                log.warning(\"Timed out trying to get API versions from %r\", self)\n                requestId = self._next_id()\n                api_version_failures += 1",
      "expect": "C04.R9", "note": "seeded C04-2"},
+    {"id": "commit-group-ascii-only", "file": "kafkacodec.py",
+     "old": "        message += write_short_text(group)\n        message += struct.pack(\">i\", group_generation_id)",
+     "new": "        message += write_short_ascii(group)\n        message += struct.pack(\">i\", group_generation_id)", "expect": "C04.R1", "note": "finding F14"},
     {"id": "gzip-marked-snappy", "file": "kafkacodec.py", "old": "        return Message(magic, CODEC_GZIP, None, gzipped)", "new": "        return Message(magic, CODEC_SNAPPY, None, gzipped)", "expect": "C04.R4"},
     {"id": "version-not-clamped", "file": "kafkacodec.py", "old": "        if api_version >= 2:\n            req_api_version = 2\n            magic = 1",
      "new": "        if api_version >= 2:\n            req_api_version = api_version\n            magic = 1", "expect": "C04.R6"},
